@@ -3,6 +3,7 @@ import Driver.SmallDrv
 import Driver.SortDrv
 import Driver.SetDrv
 import Driver.AssocDrv
+import Driver.CollDrv
 open Lean Drv
 
 def handle (line : String) : String :=
@@ -17,6 +18,9 @@ def handle (line : String) : String :=
     | "set" => setLine j
     | "map" => mapLine j
     | "cat" => catLine j
+    | "coll" => collLine j
+    | "coll3" => coll3Line j
+    | "collcyc" => collcycLine j
     | k => verdict false true "bad-kind" k
 
 partial def loop (h : IO.FS.Stream) (out : IO.FS.Stream) : IO Unit := do
